@@ -34,9 +34,9 @@ theorem axisOK_append {store : List Int} {ax : Axis} (l : List Int) (h : AxisOK 
   have e1 := sget_append store l _ h1
   have e2 := sget_append store l _ h2
   refine ⟨?_, ?_, ?_, ?_, ?_, ?_⟩
-  · simp; omega
-  · simp; omega
-  · simp; omega
+  · rw [List.length_append]; exact Nat.lt_of_lt_of_le h0 (Nat.le_add_right _ _)
+  · rw [List.length_append]; exact Nat.lt_of_lt_of_le h1 (Nat.le_add_right _ _)
+  · rw [List.length_append]; exact Nat.lt_of_lt_of_le h2 (Nat.le_add_right _ _)
   · rw [e0, e1]; exact hs
   · rw [e1, e2]; exact hd
   · rw [e1]; exact hr
@@ -49,8 +49,10 @@ theorem setSampling_spec (store samples : List Int) (u : TimeUnit) (r : Rat) (t0
     sget (setSampling store samples u r t0 dt).1 (setSampling store samples u r t0 dt).2.dt = dt ∧
     sget (setSampling store samples u r t0 dt).1 (setSampling store samples u r t0 dt).2.dur
       = (samples.length : Int) * dt := by
-  simp only [setSampling]
-  exact ⟨rfl, rfl, rfl, sget_new0 _ _ _ _, sget_new1 _ _ _ _, sget_new2 _ _ _ _⟩
+  refine ⟨rfl, rfl, rfl, ?_, ?_, ?_⟩
+  · exact sget_new0 _ _ _ _
+  · exact sget_new1 _ _ _ _
+  · exact sget_new2 _ _ _ _
 
 theorem setSampling_ok (store samples : List Int) (u : TimeUnit) (r : Rat) (t0 dt : Int)
     (hs : samples = affine t0 dt samples.length) :
@@ -102,5 +104,535 @@ theorem div_samples (t0 dt k : Int) (n : Nat) (hk : k ≠ 0) (h0 : t0 % k = 0) (
   obtain ⟨b, rfl⟩ := Int.dvd_of_emod_eq_zero h1
   have e : k * a + (i : Int) * (k * b) = k * (a + (i : Int) * b) := by ring
   rw [e, Int.mul_ediv_cancel_left _ hk, Int.mul_ediv_cancel_left _ hk, Int.mul_ediv_cancel_left _ hk]
+
+
+/-! ### one step: invariant, refinement, rejection — proved together per operation -/
+
+/-- frame: attribute objects are never overwritten (the store only grows) and the originals of
+earlier copies stay in the state -/
+def Frame (s s' : State) : Prop :=
+  (∃ l, s'.store = s.store ++ l) ∧ ∀ a ∈ s.kept, a ∈ s'.kept
+
+theorem frame_refl (s : State) : Frame s s := ⟨⟨[], by simp⟩, fun _ ha => ha⟩
+
+/-- what one step must satisfy -/
+def StepOK (s : State) (op : Op) (r : State × Option Err) : Prop :=
+  Inv r.1 ∧ abs r.1 = absStep (abs s) op ∧ (r.2 ≠ none → r.1 = s) ∧ Frame s r.1
+
+theorem abs_unit (s : State) : (abs s).unit = s.cur.unit := rfl
+theorem abs_n (s : State) : (abs s).n = s.cur.samples.length := rfl
+
+/-- shifts and ramps, repaired behaviour -/
+theorem shiftOp_fixed_spec (s : State) (h : Inv s) (sgn : Int) (vals : Option (List Int)) (v0 d : Int)
+    (hv : ∀ vs, vals = some vs → vs = affine v0 d vs.length) (hd : vals = none → d = 0) :
+    Inv (shiftOp fixed s sgn vals v0 d).1 ∧
+    ((shiftOp fixed s sgn vals v0 d).2 = none →
+      abs (shiftOp fixed s sgn vals v0 d).1
+        = { abs s with t0 := (abs s).t0 + sgn * v0, dt := (abs s).dt + sgn * d }) ∧
+    ((shiftOp fixed s sgn vals v0 d).2 ≠ none → (shiftOp fixed s sgn vals v0 d).1 = s) ∧
+    ((shiftOp fixed s sgn vals v0 d).2 = none ↔ ∀ vs, vals = some vs → vs.length = s.cur.samples.length) ∧
+    Frame s (shiftOp fixed s sgn vals v0 d).1 := by
+  obtain ⟨hcur, hkept⟩ := h
+  have hsam := hcur.2.2.2.1
+  cases vals with
+  | none =>
+    have hd0 : d = 0 := hd rfl
+    subst hd0
+    have hs : s.cur.samples.map (· + sgn * v0)
+        = affine (sget s.store s.cur.t0 + sgn * v0) (sget s.store s.cur.dt + sgn * 0)
+            (s.cur.samples.map (· + sgn * v0)).length := by
+      rw [List.length_map]
+      conv_lhs => rw [hsam]
+      rw [shift_samples]; simp
+    have hI := inv_setSampling ⟨hcur, hkept⟩ _ s.cur.unit s.cur.rate _ _ hs s.kept (fun a ha => Or.inr ha)
+    have hspec := setSampling_spec s.store (s.cur.samples.map (· + sgn * v0)) s.cur.unit s.cur.rate
+      (sget s.store s.cur.t0 + sgn * v0) (sget s.store s.cur.dt + sgn * 0)
+    simp only [shiftOp, fixed, Bool.false_eq_true, if_false, if_true]
+    refine ⟨hI, ?_, ?_, ?_, ⟨⟨_, hspec.1⟩, fun a ha => ha⟩⟩
+    · intro _
+      simp only [abs]
+      rw [hspec.2.2.2.1, hspec.2.2.2.2.1, hspec.2.1, hspec.2.2.1, List.length_map]
+    · intro hne; exact absurd rfl hne
+    · simp
+  | some vs =>
+    have hvs := hv vs rfl
+    by_cases hfit : vs.length = s.cur.samples.length
+    · have hs : List.zipWith (fun x v => x + sgn * v) s.cur.samples vs
+          = affine (sget s.store s.cur.t0 + sgn * v0) (sget s.store s.cur.dt + sgn * d)
+              (List.zipWith (fun x v => x + sgn * v) s.cur.samples vs).length := by
+        rw [List.length_zipWith, hfit, Nat.min_self]
+        conv_lhs => rw [hsam, hvs, hfit]
+        exact ramp_samples _ _ _ _ _ _
+      have hI := inv_setSampling ⟨hcur, hkept⟩ _ s.cur.unit s.cur.rate _ _ hs s.kept (fun a ha => Or.inr ha)
+      have hspec := setSampling_spec s.store (List.zipWith (fun x v => x + sgn * v) s.cur.samples vs)
+        s.cur.unit s.cur.rate (sget s.store s.cur.t0 + sgn * v0) (sget s.store s.cur.dt + sgn * d)
+      have hb : (vs.length == s.cur.samples.length) = true := by simpa using hfit
+      simp only [shiftOp, fixed, Bool.false_eq_true, if_false, hb, if_true]
+      refine ⟨hI, ?_, ?_, ?_, ⟨⟨_, hspec.1⟩, fun a ha => ha⟩⟩
+      · intro _
+        simp only [abs]
+        rw [hspec.2.2.2.1, hspec.2.2.2.2.1, hspec.2.1, hspec.2.2.1, List.length_zipWith, hfit, Nat.min_self]
+      · intro hne; exact absurd rfl hne
+      · constructor
+        · intro _ vs' hvs'; cases hvs'; exact hfit
+        · intro _; trivial
+    · have hb : (vs.length == s.cur.samples.length) = false := by simpa using hfit
+      simp only [shiftOp, fixed, Bool.false_eq_true, if_false, hb]
+      refine ⟨⟨hcur, hkept⟩, ?_, ?_, ?_, frame_refl s⟩
+      · intro hn; cases hn
+      · intro _; trivial
+      · constructor
+        · intro hn; cases hn
+        · intro hall; exact absurd (hall vs rfl) hfit
+
+
+theorem abs_ext {a b : Abs} (h0 : a.t0 = b.t0) (h1 : a.dt = b.dt) (h2 : a.n = b.n) (h3 : a.unit = b.unit) :
+    a = b := by
+  cases a; cases b; simp_all
+
+/-- a fresh triple of attribute objects with the values of the parent's -/
+theorem fresh_attrs_ok {store : List Int} {ax : Axis} (h : AxisOK store ax) (samples : List Int)
+    (u : TimeUnit) (hs : samples = affine (sget store ax.t0) (sget store ax.dt) samples.length)
+    (hd : sget store ax.dur = (samples.length : Int) * sget store ax.dt) :
+    AxisOK (store ++ [sget store ax.t0, sget store ax.dt, sget store ax.dur])
+      { samples := samples, unit := u, t0 := store.length, dt := store.length + 1,
+        dur := store.length + 2, rate := ax.rate } := by
+  refine ⟨?_, ?_, ?_, ?_, ?_, ?_⟩
+  · simp
+  · simp
+  · simp
+  · show samples = affine (sget _ store.length) (sget _ (store.length + 1)) samples.length
+    rw [sget_new0, sget_new1]; exact hs
+  · show sget _ (store.length + 2) = (samples.length : Int) * sget _ (store.length + 1)
+    rw [sget_new2, sget_new1]; exact hd
+  · show sget _ (store.length + 1) ≠ 0 → ∃ u', ax.rate = rateOf u' (sget _ (store.length + 1))
+    rw [sget_new1]; exact h.2.2.2.2.2
+
+theorem step_ok (s : State) (h : Inv s) (op : Op) : StepOK s op (step fixed s op) := by
+  have hcur := h.1
+  have hsam := hcur.2.2.2.1
+  cases op with
+  | addS v =>
+    have hsp := shiftOp_fixed_spec s h 1 none (convScalar s.cur.unit v) 0 (by intro vs hvs; cases hvs) (fun _ => rfl)
+    have hnone : (shiftOp fixed s 1 none (convScalar s.cur.unit v) 0).2 = none :=
+      hsp.2.2.2.1.mpr (by intro vs hvs; cases hvs)
+    refine ⟨hsp.1, ?_, hsp.2.2.1, hsp.2.2.2.2⟩
+    show abs (shiftOp fixed s 1 none (convScalar s.cur.unit v) 0).1 = _
+    rw [hsp.2.1 hnone]
+    apply abs_ext <;> simp [absStep, abs_unit]
+  | subS v =>
+    have hsp := shiftOp_fixed_spec s h (-1) none (convScalar s.cur.unit v) 0 (by intro vs hvs; cases hvs) (fun _ => rfl)
+    have hnone : (shiftOp fixed s (-1) none (convScalar s.cur.unit v) 0).2 = none :=
+      hsp.2.2.2.1.mpr (by intro vs hvs; cases hvs)
+    refine ⟨hsp.1, ?_, hsp.2.2.1, hsp.2.2.2.2⟩
+    show abs (shiftOp fixed s (-1) none (convScalar s.cur.unit v) 0).1 = _
+    rw [hsp.2.1 hnone]
+    apply abs_ext <;> simp [absStep, abs_unit] <;> ring
+  | addR r =>
+    cases hr : rampStep (convRamp s.cur.unit r) with
+    | error e =>
+      have : step fixed s (.addR r) = (s, some e) := by simp only [step, hr]
+      rw [this]
+      refine ⟨h, ?_, fun _ => rfl, frame_refl s⟩
+      simp only [absStep, abs_unit, hr]
+    | ok d =>
+      have : step fixed s (.addR r)
+          = shiftOp fixed s 1 (some (convRamp s.cur.unit r)) ((convRamp s.cur.unit r).headD 0) d := by
+        simp only [step, hr]
+      rw [this]
+      have hro := rampStep_ok hr
+      have hsp := shiftOp_fixed_spec s h 1 (some (convRamp s.cur.unit r)) ((convRamp s.cur.unit r).headD 0) d
+        (by intro vs hvs; cases hvs; exact hro.1) (by intro hn; cases hn)
+      refine ⟨hsp.1, ?_, hsp.2.2.1, hsp.2.2.2.2⟩
+      by_cases hfit : (convRamp s.cur.unit r).length = s.cur.samples.length
+      · have hnone := hsp.2.2.2.1.mpr (by intro vs hvs; cases hvs; exact hfit)
+        rw [hsp.2.1 hnone]
+        simp only [absStep, abs_unit, hr, abs_n, hfit, if_true]
+        apply abs_ext <;> simp
+      · have hsome : (shiftOp fixed s 1 (some (convRamp s.cur.unit r)) ((convRamp s.cur.unit r).headD 0) d).2 ≠ none := by
+          intro hn; exact hfit (hsp.2.2.2.1.mp hn _ rfl)
+        rw [hsp.2.2.1 hsome]
+        simp only [absStep, abs_unit, hr, abs_n, hfit, if_false]
+  | subR r =>
+    cases hr : rampStep (convRamp s.cur.unit r) with
+    | error e =>
+      have : step fixed s (.subR r) = (s, some e) := by simp only [step, hr]
+      rw [this]
+      refine ⟨h, ?_, fun _ => rfl, frame_refl s⟩
+      simp only [absStep, abs_unit, hr]
+    | ok d =>
+      have : step fixed s (.subR r)
+          = shiftOp fixed s (-1) (some (convRamp s.cur.unit r)) ((convRamp s.cur.unit r).headD 0) d := by
+        simp only [step, hr]
+      rw [this]
+      have hro := rampStep_ok hr
+      have hsp := shiftOp_fixed_spec s h (-1) (some (convRamp s.cur.unit r)) ((convRamp s.cur.unit r).headD 0) d
+        (by intro vs hvs; cases hvs; exact hro.1) (by intro hn; cases hn)
+      refine ⟨hsp.1, ?_, hsp.2.2.1, hsp.2.2.2.2⟩
+      by_cases hfit : (convRamp s.cur.unit r).length = s.cur.samples.length
+      · have hnone := hsp.2.2.2.1.mpr (by intro vs hvs; cases hvs; exact hfit)
+        rw [hsp.2.1 hnone]
+        simp only [absStep, abs_unit, hr, abs_n, hfit, if_true]
+        apply abs_ext <;> simp <;> ring
+      · have hsome : (shiftOp fixed s (-1) (some (convRamp s.cur.unit r)) ((convRamp s.cur.unit r).headD 0) d).2 ≠ none := by
+          intro hn; exact hfit (hsp.2.2.2.1.mp hn _ rfl)
+        rw [hsp.2.2.1 hsome]
+        simp only [absStep, abs_unit, hr, abs_n, hfit, if_false]
+  | mul k =>
+    by_cases hk : k = 0
+    · have : step fixed s (.mul k) = (s, some .valueError) := by
+        simp only [step, fixed, Bool.false_eq_true, if_false, hk, if_true]
+      rw [this]
+      refine ⟨h, ?_, fun _ => rfl, frame_refl s⟩
+      simp only [absStep, hk, if_true]
+    · have hs : s.cur.samples.map (· * k)
+          = affine (sget s.store s.cur.t0 * k) (sget s.store s.cur.dt * k) (s.cur.samples.map (· * k)).length := by
+        rw [List.length_map]
+        conv_lhs => rw [hsam]
+        exact mul_samples _ _ _ _
+      have hI := inv_setSampling h _ s.cur.unit s.cur.rate _ _ hs s.kept (fun a ha => Or.inr ha)
+      have hspec := setSampling_spec s.store (s.cur.samples.map (· * k)) s.cur.unit s.cur.rate
+        (sget s.store s.cur.t0 * k) (sget s.store s.cur.dt * k)
+      have : step fixed s (.mul k) =
+          ({ s with store := (setSampling s.store (s.cur.samples.map (· * k)) s.cur.unit s.cur.rate
+                (sget s.store s.cur.t0 * k) (sget s.store s.cur.dt * k)).1,
+                    cur := (setSampling s.store (s.cur.samples.map (· * k)) s.cur.unit s.cur.rate
+                (sget s.store s.cur.t0 * k) (sget s.store s.cur.dt * k)).2 }, none) := by
+        simp only [step, fixed, Bool.false_eq_true, if_false, hk]
+      rw [this]
+      refine ⟨hI, ?_, fun hne => absurd rfl hne, ⟨⟨_, hspec.1⟩, fun a ha => ha⟩⟩
+      simp only [absStep, hk, if_false]
+      apply abs_ext
+      · exact hspec.2.2.2.1
+      · exact hspec.2.2.2.2.1
+      · simp only [abs]; rw [hspec.2.1, List.length_map]
+      · exact hspec.2.2.1
+  | div k =>
+    by_cases hk : k = 0 ∨ sget s.store s.cur.t0 % k ≠ 0 ∨ sget s.store s.cur.dt % k ≠ 0
+    · have : step fixed s (.div k) = (s, some .valueError) := by
+        simp only [step, fixed, Bool.false_eq_true, if_false, hk, if_true]
+      rw [this]
+      refine ⟨h, ?_, fun _ => rfl, frame_refl s⟩
+      have hk' : k = 0 ∨ (abs s).t0 % k ≠ 0 ∨ (abs s).dt % k ≠ 0 := hk
+      simp only [absStep, hk', if_true]
+    · have hk0 : k ≠ 0 := fun e => hk (Or.inl e)
+      have h0 : sget s.store s.cur.t0 % k = 0 := by
+        by_contra hne; exact hk (Or.inr (Or.inl hne))
+      have h1 : sget s.store s.cur.dt % k = 0 := by
+        by_contra hne; exact hk (Or.inr (Or.inr hne))
+      have hs : s.cur.samples.map (· / k)
+          = affine (sget s.store s.cur.t0 / k) (sget s.store s.cur.dt / k) (s.cur.samples.map (· / k)).length := by
+        rw [List.length_map]
+        conv_lhs => rw [hsam]
+        exact div_samples _ _ _ _ hk0 h0 h1
+      have hI := inv_setSampling h _ s.cur.unit s.cur.rate _ _ hs s.kept (fun a ha => Or.inr ha)
+      have hspec := setSampling_spec s.store (s.cur.samples.map (· / k)) s.cur.unit s.cur.rate
+        (sget s.store s.cur.t0 / k) (sget s.store s.cur.dt / k)
+      have : step fixed s (.div k) =
+          ({ s with store := (setSampling s.store (s.cur.samples.map (· / k)) s.cur.unit s.cur.rate
+                (sget s.store s.cur.t0 / k) (sget s.store s.cur.dt / k)).1,
+                    cur := (setSampling s.store (s.cur.samples.map (· / k)) s.cur.unit s.cur.rate
+                (sget s.store s.cur.t0 / k) (sget s.store s.cur.dt / k)).2 }, none) := by
+        simp only [step, fixed, Bool.false_eq_true, if_false, hk]
+      rw [this]
+      refine ⟨hI, ?_, fun hne => absurd rfl hne, ⟨⟨_, hspec.1⟩, fun a ha => ha⟩⟩
+      have hk' : ¬ (k = 0 ∨ (abs s).t0 % k ≠ 0 ∨ (abs s).dt % k ≠ 0) := hk
+      simp only [absStep, hk', if_false]
+      apply abs_ext
+      · exact hspec.2.2.2.1
+      · exact hspec.2.2.2.2.1
+      · simp only [abs]; rw [hspec.2.1, List.length_map]
+      · exact hspec.2.2.1
+  | slice a b c =>
+    by_cases hc : c = 0
+    · have : step fixed s (.slice a b c) = (s, some .valueError) := by
+        simp only [step, hc, if_true]
+      rw [this]
+      refine ⟨h, ?_, fun _ => rfl, frame_refl s⟩
+      simp only [absStep, hc, if_true]
+    · have hrange := sliceIndices_range s.cur.samples.length a b c hc
+      have hs : sliceSamples s.cur.samples (sliceIndices s.cur.samples.length a b c).1 c (sliceIndices s.cur.samples.length a b c).2.2
+          = affine (sget s.store s.cur.t0 + (sliceIndices s.cur.samples.length a b c).1 * sget s.store s.cur.dt)
+              (sget s.store s.cur.dt * c)
+              (sliceSamples s.cur.samples (sliceIndices s.cur.samples.length a b c).1 c (sliceIndices s.cur.samples.length a b c).2.2).length := by
+        rw [sliceSamples_length]
+        conv_lhs => rw [hsam]
+        simp only [affine_length]
+        exact sliceSamples_affine _ _ _ _ _ _ hrange
+      have hI := inv_setSampling h _ s.cur.unit s.cur.rate _ _ hs s.kept (fun a ha => Or.inr ha)
+      have hspec := setSampling_spec s.store
+        (sliceSamples s.cur.samples (sliceIndices s.cur.samples.length a b c).1 c (sliceIndices s.cur.samples.length a b c).2.2) s.cur.unit s.cur.rate
+        (sget s.store s.cur.t0 + (sliceIndices s.cur.samples.length a b c).1 * sget s.store s.cur.dt) (sget s.store s.cur.dt * c)
+      have : step fixed s (.slice a b c) =
+          ({ s with store := (setSampling s.store
+                (sliceSamples s.cur.samples (sliceIndices s.cur.samples.length a b c).1 c (sliceIndices s.cur.samples.length a b c).2.2) s.cur.unit s.cur.rate
+                (sget s.store s.cur.t0 + (sliceIndices s.cur.samples.length a b c).1 * sget s.store s.cur.dt) (sget s.store s.cur.dt * c)).1,
+                    cur := (setSampling s.store
+                (sliceSamples s.cur.samples (sliceIndices s.cur.samples.length a b c).1 c (sliceIndices s.cur.samples.length a b c).2.2) s.cur.unit s.cur.rate
+                (sget s.store s.cur.t0 + (sliceIndices s.cur.samples.length a b c).1 * sget s.store s.cur.dt) (sget s.store s.cur.dt * c)).2 }, none) := by
+        simp only [step, fixed, Bool.false_eq_true, if_false, hc]
+      rw [this]
+      refine ⟨hI, ?_, fun hne => absurd rfl hne, ⟨⟨_, hspec.1⟩, fun a ha => ha⟩⟩
+      simp only [absStep, hc, if_false]
+      apply abs_ext
+      · exact hspec.2.2.2.1
+      · exact hspec.2.2.2.2.1
+      · simp only [abs]; rw [hspec.2.1, sliceSamples_length]
+      · exact hspec.2.2.1
+  | copy =>
+    have : step fixed s .copy =
+        ({ store := s.store ++ [sget s.store s.cur.t0, sget s.store s.cur.dt, sget s.store s.cur.dur],
+           cur := { samples := s.cur.samples, unit := s.cur.unit, t0 := s.store.length,
+                    dt := s.store.length + 1, dur := s.store.length + 2, rate := s.cur.rate },
+           kept := s.cur :: s.kept }, none) := by
+      simp only [step, inheritAttrs, fixed, Bool.false_eq_true, if_false]
+    rw [this]
+    refine ⟨⟨fresh_attrs_ok hcur s.cur.samples s.cur.unit hsam hcur.2.2.2.2.1, ?_⟩, ?_, fun hne => absurd rfl hne, ⟨⟨_, rfl⟩, fun a ha => List.mem_cons_of_mem _ ha⟩⟩
+    · intro a ha
+      rcases List.mem_cons.mp ha with rfl | hm
+      · exact axisOK_append _ hcur
+      · exact axisOK_append _ (h.2 a hm)
+    · simp only [absStep]
+      apply abs_ext
+      · exact sget_new0 _ _ _ _
+      · exact sget_new1 _ _ _ _
+      · rfl
+      · rfl
+  | convert u =>
+    have hlen : (affine (sget s.store s.cur.t0) (sget s.store s.cur.dt) s.cur.samples.length).length
+        = s.cur.samples.length := affine_length _ _ _
+    refine ⟨⟨?_, ?_⟩, ?_, fun hne => absurd rfl hne, ⟨⟨_, rfl⟩, fun a ha => List.mem_cons_of_mem _ ha⟩⟩
+    · show AxisOK (s.store ++ [sget s.store s.cur.t0, sget s.store s.cur.dt,
+          (s.cur.samples.length : Int) * sget s.store s.cur.dt])
+        { samples := affine (sget s.store s.cur.t0) (sget s.store s.cur.dt) s.cur.samples.length,
+          unit := u, t0 := s.store.length, dt := s.store.length + 1, dur := s.store.length + 2,
+          rate := s.cur.rate }
+      rw [← hcur.2.2.2.2.1]
+      exact fresh_attrs_ok hcur _ u (by rw [hlen]) (by rw [hlen]; exact hcur.2.2.2.2.1)
+    · intro a ha
+      show AxisOK (s.store ++ _) a
+      rcases List.mem_cons.mp ha with rfl | hm
+      · exact axisOK_append _ hcur
+      · exact axisOK_append _ (h.2 a hm)
+    · show abs { store := s.store ++ [sget s.store s.cur.t0, sget s.store s.cur.dt,
+          (s.cur.samples.length : Int) * sget s.store s.cur.dt], cur := _, kept := _ } = _
+      simp only [absStep]
+      apply abs_ext
+      · exact sget_new0 _ _ _ _
+      · exact sget_new1 _ _ _ _
+      · exact hlen
+      · rfl
+  | setitem => exact ⟨h, rfl, fun _ => rfl, frame_refl s⟩
+
+
+/-! ## The property theorems -/
+
+/-- a freshly built axis satisfies the invariant -/
+theorem init_inv (u : TimeUnit) (t0 dt : Int) (n : Nat) : Inv (initState u t0 dt n) := by
+  refine ⟨⟨by simp [initState], by simp [initState], by simp [initState], ?_, ?_, ?_⟩, by simp [initState]⟩
+  · simp [initState, sget, affine_length]
+  · simp [initState, sget, affine_length]
+  · intro _; exact ⟨u, by simp [initState, sget]⟩
+
+/-- `step_inv`: every operation of the alphabet — accepted or refused — keeps the invariant -/
+theorem step_inv {s : State} (h : Inv s) (op : Op) : Inv (step fixed s op).1 := (step_ok s h op).1
+
+/-- `run_inv`: after ANY sequence of operations the attributes still describe the samples -/
+theorem run_inv (ops : List Op) : ∀ {s : State}, Inv s → Inv (run fixed ops s) := by
+  induction ops with
+  | nil => intro s h; exact h
+  | cons op rest ih => intro s h; exact ih (step_inv h op)
+
+/-- `abs_commutes`: the concrete step refines the abstract `(t0, Δ, n, unit)` step -/
+theorem abs_commutes {s : State} (h : Inv s) (op : Op) :
+    abs (step fixed s op).1 = absStep (abs s) op := (step_ok s h op).2.1
+
+/-- under the invariant the stored samples are exactly those of the abstract state -/
+theorem samples_described {s : State} (h : Inv s) : s.cur.samples = absSamples (abs s) := h.1.2.2.2.1
+
+/-- refinement along whole histories: attributes AND samples follow the abstract machine -/
+theorem run_refines (ops : List Op) : ∀ {s : State}, Inv s →
+    abs (run fixed ops s) = ops.foldl absStep (abs s) ∧
+    (run fixed ops s).cur.samples = absSamples (ops.foldl absStep (abs s)) := by
+  induction ops with
+  | nil => intro s h; exact ⟨rfl, samples_described h⟩
+  | cons op rest ih =>
+    intro s h
+    have := ih (step_inv h op)
+    rw [abs_commutes h op] at this
+    exact this
+
+/-- the duration and the rate after any history, spelled out -/
+theorem run_duration_rate (ops : List Op) {s : State} (h : Inv s) :
+    let s' := run fixed ops s
+    sget s'.store s'.cur.dur = (s'.cur.samples.length : Int) * sget s'.store s'.cur.dt ∧
+    (sget s'.store s'.cur.dt ≠ 0 → ∃ u, s'.cur.rate = rateOf u (sget s'.store s'.cur.dt)) :=
+  ⟨(run_inv ops h).1.2.2.2.2.1, (run_inv ops h).1.2.2.2.2.2⟩
+
+/-- `rejected_ops_leave_unchanged`: an operation that raises leaves the whole state — samples,
+attributes, originals of copies — exactly as it was -/
+theorem rejected_ops_leave_unchanged {s : State} (h : Inv s) (op : Op)
+    (hr : (step fixed s op).2 ≠ none) : (step fixed s op).1 = s := (step_ok s h op).2.2.1 hr
+
+/-- element assignment is always refused -/
+theorem setitem_rejected (s : State) : step fixed s .setitem = (s, some .valueError) := rfl
+
+/-- adding or subtracting a 1-d operand whose increments are not constant is refused (ValueError) -/
+theorem nonuniform_rejected (s : State) (r : Ramp) (d : Int) (ds : List Int)
+    (hd : diff (convRamp s.cur.unit r) = d :: ds) (hne : ∃ x ∈ ds, x ≠ d) :
+    step fixed s (.addR r) = (s, some .valueError) ∧ step fixed s (.subR r) = (s, some .valueError) := by
+  have hr := rampStep_nonuniform hd hne
+  constructor <;> simp only [step, hr]
+
+/-- a uniform 1-d operand of the wrong length is refused and nothing changes -/
+theorem wrong_length_rejected (s : State) (r : Ramp) (d : Int)
+    (hr : rampStep (convRamp s.cur.unit r) = .ok d)
+    (hl : (convRamp s.cur.unit r).length ≠ s.cur.samples.length) :
+    step fixed s (.addR r) = (s, some .valueError) ∧ step fixed s (.subR r) = (s, some .valueError) := by
+  have hb : ((convRamp s.cur.unit r).length == s.cur.samples.length) = false := by simpa using hl
+  constructor <;> simp only [step, hr, shiftOp, fixed, Bool.false_eq_true, if_false, hb]
+
+/-- which operations are accepted: scalar shifts, copies, relabelling always; scaling by k ≠ 0;
+division when it is exact; slices with a non-zero step -/
+theorem accepted_ops (s : State) :
+    (∀ v, (step fixed s (.addS v)).2 = none) ∧ (∀ v, (step fixed s (.subS v)).2 = none) ∧
+    (∀ k, k ≠ 0 → (step fixed s (.mul k)).2 = none) ∧
+    (∀ k, k ≠ 0 → sget s.store s.cur.t0 % k = 0 → sget s.store s.cur.dt % k = 0 → (step fixed s (.div k)).2 = none) ∧
+    (∀ a b c, c ≠ 0 → (step fixed s (.slice a b c)).2 = none) ∧
+    (step fixed s .copy).2 = none ∧ (∀ u, (step fixed s (.convert u)).2 = none) := by
+  refine ⟨?_, ?_, ?_, ?_, ?_, rfl, fun _ => rfl⟩
+  · intro v; simp [step, shiftOp, fixed]
+  · intro v; simp [step, shiftOp, fixed]
+  · intro k hk; simp [step, fixed, hk]
+  · intro k hk h0 h1; simp [step, fixed, hk, h0, h1]
+  · intro a b c hc; simp [step, fixed, hc]
+
+/-- `lookup_after_ops` (state form): when the invariant holds and Δ > 0, looking up the i-th
+sample returns position i -/
+theorem lookup_of_inv {s : State} (h : Inv s) (hdt : 0 < sget s.store s.cur.dt) (i : Nat)
+    (hi : i < s.cur.samples.length) :
+    indexAt s.store s.cur (s.cur.samples.getD i 0) = .ok (i : Int) := by
+  obtain ⟨_, _, _, hsam, hdur, _⟩ := h.1
+  have hget : s.cur.samples.getD i 0 = sget s.store s.cur.t0 + (i : Int) * sget s.store s.cur.dt := by
+    rw [hsam]; exact affine_getD _ _ _ _ hi
+  rw [hget]
+  unfold indexAt
+  have hi' : (i : Int) < (s.cur.samples.length : Int) := by exact_mod_cast hi
+  have h1 : 0 ≤ (i : Int) * sget s.store s.cur.dt := Int.mul_nonneg (Int.natCast_nonneg i) (le_of_lt hdt)
+  have h2 : (i : Int) * sget s.store s.cur.dt < (s.cur.samples.length : Int) * sget s.store s.cur.dt :=
+    Int.mul_lt_mul_of_pos_right hi' hdt
+  have hcond : ¬ (sget s.store s.cur.t0 + (i : Int) * sget s.store s.cur.dt < sget s.store s.cur.t0 ∨
+      sget s.store s.cur.t0 + (i : Int) * sget s.store s.cur.dt ≥ sget s.store s.cur.t0 + sget s.store s.cur.dur) := by
+    rw [hdur]; omega
+  simp only [hcond, if_false]
+  congr 1
+  have : sget s.store s.cur.t0 + (i : Int) * sget s.store s.cur.dt - sget s.store s.cur.t0
+      = (i : Int) * sget s.store s.cur.dt := by ring
+  rw [this, Int.fdiv_eq_ediv_of_nonneg _ (le_of_lt hdt)]
+  exact Int.mul_ediv_cancel _ (ne_of_gt hdt)
+
+/-- `lookup_after_ops`: after ANY history that leaves a positive sampling interval,
+`index_at(axis[i]) = i` for every position -/
+theorem lookup_after_ops (ops : List Op) {s : State} (h : Inv s)
+    (hdt : 0 < sget (run fixed ops s).store (run fixed ops s).cur.dt) (i : Nat)
+    (hi : i < (run fixed ops s).cur.samples.length) :
+    indexAt (run fixed ops s).store (run fixed ops s).cur ((run fixed ops s).cur.samples.getD i 0) = .ok (i : Int) :=
+  lookup_of_inv (run_inv ops h) hdt i hi
+
+/-- an instant before the first sample or at/after `t0 + n·Δ` is refused -/
+theorem lookup_refuses_outside {s : State} (h : Inv s) (t : Int)
+    (ht : t < sget s.store s.cur.t0 ∨
+          t ≥ sget s.store s.cur.t0 + (s.cur.samples.length : Int) * sget s.store s.cur.dt) :
+    indexAt s.store s.cur t = .error .valueError := by
+  unfold indexAt
+  rw [h.1.2.2.2.2.1]
+  simp only [ht, if_true]
+
+/-- the originals of earlier copies are untouched by any operation on the current axis: they stay
+in the state and every attribute object they point to keeps its value (samples, unit and rate
+are stored by value in the `Axis` record itself) -/
+theorem originals_untouched {s : State} (h : Inv s) (op : Op) (a : Axis) (ha : a ∈ s.kept) :
+    a ∈ (step fixed s op).1.kept ∧
+    sget (step fixed s op).1.store a.t0 = sget s.store a.t0 ∧
+    sget (step fixed s op).1.store a.dt = sget s.store a.dt ∧
+    sget (step fixed s op).1.store a.dur = sget s.store a.dur := by
+  obtain ⟨⟨l, hl⟩, hk⟩ := (step_ok s h op).2.2.2
+  obtain ⟨h0, h1, h2, _⟩ := h.2 a ha
+  refine ⟨hk a ha, ?_, ?_, ?_⟩ <;> rw [hl] <;> apply sget_append <;> assumption
+
+/-- a copy owns its attribute objects: none of its ids is an id of the original, and the original
+is kept unchanged (`copy_shares_nothing_mutable`, axis part) -/
+theorem copy_fresh_objects {s : State} (h : Inv s) :
+    let s' := (step fixed s .copy).1
+    s'.kept = s.cur :: s.kept ∧ s'.cur.samples = s.cur.samples ∧
+    s.cur.t0 < s'.cur.t0 ∧ s.cur.dt < s'.cur.t0 ∧ s.cur.dur < s'.cur.t0 ∧
+    s'.cur.t0 < s'.cur.dt ∧ s'.cur.dt < s'.cur.dur := by
+  obtain ⟨h0, h1, h2, _⟩ := h.1
+  exact ⟨rfl, rfl, h0, h1, h2, Nat.lt_succ_self _, Nat.lt_succ_self _⟩
+
+/-! ### non-vacuity -/
+/-- a concrete history through every kind of operation (ms axis, t0 = 1 ms, Δ = 2 ms, n = 4) -/
+def exampleOps : List Op :=
+  [.addS (.int 3), .subR (.time [0, 1000000000, 2000000000, 3000000000]), .mul 2, .div 2,
+   .slice (some 1) (some 4) 2, .copy, .addR (.ints [0, 1]), .convert .s, .setitem,
+   .addR (.ints [0, 1, 3])]
+
+example : Inv (run fixed exampleOps (initState .ms 1000000000 2000000000 4)) :=
+  run_inv _ (init_inv _ _ _ _)
+
+example : abs (run fixed exampleOps (initState .ms 1000000000 2000000000 4))
+    = ⟨5000000000, 3000000000, 2, .s⟩ := by
+  rw [(run_refines exampleOps (init_inv _ _ _ _)).1]
+  decide
+
+/-! ### the unrepaired source (`current`) breaks the invariant — one witness per recorded defect.
+Initial axis: unit ps, t0 = 1, Δ = 2, n = 4 (samples 1,3,5,7). -/
+def ax0 : State := initState .ps 1 2 4
+
+/-- `+= 3` leaves `t0` at 1 while the first sample is 4 -/
+theorem current_iadd_scalar_counterexample :
+    let s := (step current ax0 (.addS (.int 3))).1
+    sget s.store s.cur.t0 = 1 ∧ s.cur.samples = [4, 6, 8, 10] := by decide
+
+/-- `-= ramp(step 1)` makes the samples 1,2,3,4 but the interval 3 (added instead of subtracted) -/
+theorem current_isub_ramp_counterexample :
+    let s := (step current ax0 (.subR (.ints [0, 1, 2, 3]))).1
+    sget s.store s.cur.dt = 3 ∧ s.cur.samples = [1, 2, 3, 4] := by decide
+
+/-- `+= ramp` leaves the duration at 8 although 4 samples are now 3 apart -/
+theorem current_iadd_ramp_duration_counterexample :
+    let s := (step current ax0 (.addR (.ints [0, 1, 2, 3]))).1
+    sget s.store s.cur.dt = 3 ∧ sget s.store s.cur.dur = 8 ∧ s.cur.samples = [1, 4, 7, 10] := by decide
+
+/-- `*= 2` leaves `t0` = 1 and duration = 8 while the samples are 2,6,10,14 -/
+theorem current_imul_counterexample :
+    let s := (step current ax0 (.mul 2)).1
+    sget s.store s.cur.t0 = 1 ∧ sget s.store s.cur.dur = 8 ∧ sget s.store s.cur.dt = 4 ∧
+    s.cur.samples = [2, 6, 10, 14] := by decide
+
+/-- `/= 1` raises (AttributeError: `ndarray.__idiv__` does not exist) although it is exact -/
+theorem current_idiv_counterexample :
+    (step current ax0 (.div 1)).2 = some .attributeError ∧ (step fixed ax0 (.div 1)).2 = none := by decide
+
+/-- the slice `[1:4:2]` holds 3,7 but reports t0 = 1, Δ = 2, duration 8 -/
+theorem current_slice_counterexample :
+    let s := (step current ax0 (.slice (some 1) (some 4) 2)).1
+    s.cur.samples = [3, 7] ∧ sget s.store s.cur.t0 = 1 ∧ sget s.store s.cur.dt = 2 ∧
+    sget s.store s.cur.dur = 8 := by decide
+
+/-- `c = axis.copy(); c += ramp` changes the ORIGINAL's interval (shared attribute object) -/
+theorem current_copy_shares_counterexample :
+    let s := (run current [.copy, .addR (.ints [0, 1, 2, 3])] ax0)
+    s.kept.map (fun a => (a.samples, sget s.store a.dt)) = [([1, 3, 5, 7], 3)] := by decide
+
+/-- a refused `+=` (uniform operand of the wrong length) has already changed the interval -/
+theorem current_failed_op_counterexample :
+    let r := step current ax0 (.addR (.ints [0, 1]))
+    r.2 = some .valueError ∧ sget r.1.store r.1.cur.dt = 3 ∧ r.1.cur.samples = [1, 3, 5, 7] := by decide
+
+/-- lookups go wrong after `+= 3` in the unrepaired model: the last sample is refused -/
+theorem current_lookup_counterexample :
+    let s := (step current ax0 (.addS (.int 3))).1
+    indexAt s.store s.cur 10 = .error .valueError ∧ indexAt s.store s.cur 4 = .ok 1 := by decide
 
 end Nitime.C17.Props
